@@ -440,6 +440,16 @@ func TestCheck(t *testing.T) {
 	}
 	c.Extra("reqobj_wall_s", time.Since(t0).Seconds())
 	t0 = time.Now()
+	if on("provopts") {
+		provoptsPart(c, t)
+	}
+	c.Extra("provopts_wall_s", time.Since(t0).Seconds())
+	t0 = time.Now()
+	if on("rotate") {
+		rotatePart(c, t)
+	}
+	c.Extra("rotate_wall_s", time.Since(t0).Seconds())
+	t0 = time.Now()
 	if on("alglist") {
 		alglistPart(c, t)
 	}
